@@ -951,8 +951,10 @@ func (x *c10Extractor) checkFacts() []string {
 		}
 	}
 	for name := range x.goSeen {
+		// an undeclared goroutine is not an error: it runs as role Other (many instances,
+		// concurrent with everything), which can only add alarms
 		if c10GoRoles[name] == "" && !strings.HasPrefix(name, "ServeAsync.Serve/") {
-			bad = append(bad, "goroutine "+name+" has no declared role (treated as Other)")
+			x.warnings = append(x.warnings, "goroutine "+name+" has no declared role (treated as Other)")
 		}
 	}
 	for t := range c10InternalTypes {
